@@ -132,6 +132,18 @@ CLAIMED = {
              "search; dimensions <= 12 (grids <= 60 nodes in the thorough tier).",
         note="Trusted: numpy; tolerance 1e-9 for sine-transform round trips; nodes within 1e-9 of a step boundary may belong to either adjacent step.",
         design="3/C13"),
+    "C14": dict(
+        technique="Hypothesis property tests over run histories: differential runs under an identical (seeded / captured-and-restored) global random stream compared bitwise; callback log vs stored chain; fresh-sampler state comparison after reinitialize",
+        text="For every experimental sampler, HybridGibbs, every legacy sampler and legacy Gibbs on generated small targets: (i) sample(N) "
+             "then sample(M) must equal sample(N+M) bitwise; (ii) a run checkpointed at any position c of the sampling phase (after optional "
+             "warm-up), loaded into a freshly constructed sampler with the captured random state restored, must reproduce the remaining "
+             "transitions bitwise; (iii) the callback log (copy of the state and index at call time) must have one entry per transition, "
+             "consecutive indices, and equal the finally stored chain column by column (which also shows stored entries are never altered "
+             "later); lengths as requested; legacy sample(N, Nb) = last N states of the N+Nb chain, first column = x0; (iv) reinitialize() "
+             "must give the get_state() of a newly constructed, initialised sampler and an empty history.",
+        note="Random stream = numpy global state. Legacy CWMH (in-place update on a view of the chain, pinned by the existing regression "
+             "tests) is a recorded finding, excluded and counted. RegularizedLinearRTO run with a numeric step size.",
+        design="3/C14"),
     "C15": dict(
         technique="Hypothesis property tests: closed-form posterior mean/covariance from a basis-probed effective matrix, optimality probes + gradient test, multi-start reference optimum, scripted normal draws for the direct sampling route",
         text="Generated linear-Gaussian problems (every covariance form for noise and prior, non-zero prior mean, default/Continuous1D/KL/"
